@@ -352,12 +352,16 @@ func runCheck(eng *Eng, id, tier string, replay, keep bool, only string) int {
 	exit := 0
 	violations := 0
 	var knownLines []string
+	var knownObls []string
+	knownSet := map[*Obligation]bool{}
 	os.MkdirAll(filepath.Join(verifDir, "replay", "out"), 0o755)
 	for _, o := range failed {
 		if kfe := kf.match(id, o); kfe != nil && kfe.Status == "known" && kfe.Except == "" {
 			// whole-obligation known finding: witness replay decides
 			if kf.witnessStillFails(eng, kfe) {
 				knownLines = append(knownLines, fmt.Sprintf("KNOWN-FINDING: property=%s %s", id, kfe.What))
+				knownObls = append(knownObls, o.Name+" ("+o.Result.Status+"; refuted on the real code by "+kfe.Witness+")")
+				knownSet[o] = true
 				continue
 			}
 		}
@@ -428,7 +432,9 @@ func runCheck(eng *Eng, id, tier string, replay, keep bool, only string) int {
 	sort.Strings(inl)
 	var failedNames []string
 	for _, o := range failed {
-		failedNames = append(failedNames, o.Name+" ("+o.Result.Status+")")
+		if !knownSet[o] {
+			failedNames = append(failedNames, o.Name+" ("+o.Result.Status+")")
+		}
 	}
 	trusted := []string{
 		"fsv itself: go/ssa lowering, the symbolic execution, the SMT encoding, the monitor/rely argument (DESIGN.md section 4)",
@@ -440,8 +446,11 @@ func runCheck(eng *Eng, id, tier string, replay, keep bool, only string) int {
 	ev := Evidence{PropertyID: id, Tier: tier, Seed: seed, Level: "proof", WallS: time.Since(t0).Seconds(), Violations: violations,
 		Assumptions: append(asm, propNotes[id]...),
 		Coverage: map[string]interface{}{
-			"obligations":              len(allObls),
-			"discharged":               discharged,
+			// obligations listed as known findings (refuted, witness replayed on the real code) are reported apart:
+			// they are neither claimed nor counted as proved
+			"obligations":               len(allObls) - len(knownObls),
+			"discharged":                discharged,
+			"known_finding_obligations": knownObls,
 			"checker_cmd":              "bin/fsv check " + id + " --tier " + tier,
 			"trusted_base":             trusted,
 			"samples":                  samples,
@@ -462,7 +471,7 @@ func runCheck(eng *Eng, id, tier string, replay, keep bool, only string) int {
 	os.MkdirAll(filepath.Join(verifDir, "evidence"), 0o755)
 	data, _ := json.MarshalIndent(ev, "", " ")
 	os.WriteFile(filepath.Join(verifDir, "evidence", id+".json"), data, 0o644)
-	fmt.Printf("%s: %d obligations, %d discharged, %d failed, %d functions, %d lemmas, %.1fs\n", id, len(allObls), discharged, len(failed), len(tasks), len(lemmas), time.Since(t0).Seconds())
+	fmt.Printf("%s: %d obligations, %d discharged, %d failed, %d known findings, %d functions, %d lemmas, %.1fs\n", id, len(allObls)-len(knownObls), discharged, len(failed)-len(knownObls), len(knownObls), len(tasks), len(lemmas), time.Since(t0).Seconds())
 	return exit
 }
 
